@@ -338,6 +338,15 @@ def preprocess(outputs: DictOfNamedArrays, target: Target) -> PreprocessResult:
     assert isinstance(new_outputs, DictOfNamedArrays)
 
     mapper = CodeGenPreprocessor(target)
+
+    # The names of the user's inputs must be known before a name is generated
+    # (or accepted) for wrapped data, e.g. for a DataWrapper tagged
+    # PrefixNamed("x") next to a placeholder named "x".
+    from pytato.transform import InputGatherer
+    mapper.var_name_gen.add_names({
+        inp.name for inp in InputGatherer()(new_outputs)
+        if isinstance(inp, Placeholder | SizeParam)})
+
     new_outputs = copy_dict_of_named_arrays(new_outputs, mapper)
 
     return PreprocessResult(outputs=new_outputs,
